@@ -69,6 +69,23 @@ FinalClauses ==
     X_StartFragmentHonoured |-> T.want_start = 0 \/ T.start = T.want_start,
     C16_NeverZero |-> NeverZero(K, S) ]
 
+(* ---- dead ends (beyond the listed properties): the run raised instead of returning.  The events before the   ---- *)
+(* ---- failure were reconstructed from the RNG log; the specification says which error the state leads to.        ---- *)
+IsDead == "dead" \in DOMAIN T
+DeadD == Tr(T.dead.d)
+DeadEndExplained ==
+  /\ S.weight < K.target                                   \* growth was still required
+  /\ CASE T.dead.completed_draws = 0 ->                     \* no growth site could be drawn
+             \/ (AllOpen(S) = {} /\ T.dead.outcome \in {"exc:IndexError", "exc:ValueError"})
+             \/ (AllOpen(S) # {} /\ K.react # {} /\ (\A d \in AllOpen(S) : ~ReactPos(K, d)) /\ T.dead.outcome = "exc:ValueError")
+       [] T.dead.completed_draws = 2 ->                     \* a site was drawn, no partner could be
+             /\ DeadD \in AllOpen(S) /\ ReactPos(K, DeadD)
+             /\ \/ (T.dead.attempted_draws = 2 /\ Compl(K, DeadD) = {} /\ DeadD[1] # "$" /\ T.dead.outcome = "exc:OSError")
+                \/ (T.dead.attempted_draws = 3 /\ Compl(K, DeadD) = {} /\ T.dead.outcome = "exc:IndexError")
+                \/ (T.dead.attempted_draws = 3 /\ Compl(K, DeadD) # {} /\ HasRow(K, DeadD)
+                      /\ (\A p \in Compl(K, DeadD) : ~CondPos(K, DeadD, p)) /\ T.dead.outcome = "exc:ValueError")
+       [] OTHER -> FALSE
+
 Init == /\ tid \in 1..Len(Traces) /\ l = 1 /\ bad = {}
         /\ K = Cfg
         /\ S = Start(Cfg, InitS, T.start)
@@ -78,13 +95,18 @@ Step == /\ l <= NEv /\ Replayable
         /\ l' = l + 1 /\ UNCHANGED <<tid, K>>
 Stuck == /\ l <= NEv /\ ~Replayable
          /\ bad' = bad \cup {"X_Unreplayable"} /\ l' = NEv + 2 /\ UNCHANGED <<tid, S, K>>
-Finish == /\ l = NEv + 1
+FinishDead == /\ l = NEv + 1 /\ IsDead
+              /\ bad' = bad \cup (IF DeadEndExplained THEN {} ELSE {"X_DeadEndExplained"})
+              /\ l' = NEv + 2 /\ UNCHANGED <<tid, S, K>>
+              /\ PrintT(<<"V", tid, ToJson([dom |-> TRUE, steps |-> NEv, weight |-> S.weight,
+                                            failed |-> bad \cup (IF DeadEndExplained THEN {} ELSE {"X_DeadEndExplained"})])>>)
+Finish == /\ l = NEv + 1 /\ ~IsDead
           /\ bad' = bad \cup FailedNow(FinalClauses)
           /\ l' = NEv + 2 /\ UNCHANGED <<tid, S, K>>
           /\ PrintT(<<"V", tid, ToJson([dom |-> TRUE, steps |-> NEv, failed |-> bad \cup FailedNow(FinalClauses),
                                         weight |-> S.weight])>>)
 Report == /\ l = NEv + 2 /\ "X_Unreplayable" \in bad /\ l' = NEv + 3 /\ UNCHANGED <<tid, S, K, bad>>
           /\ PrintT(<<"V", tid, ToJson([dom |-> TRUE, steps |-> NEv, failed |-> bad, weight |-> S.weight])>>)
-Next == Step \/ Stuck \/ Finish \/ Report
+Next == Step \/ Stuck \/ Finish \/ FinishDead \/ Report
 Spec == Init /\ [][Next]_vars
 =============================================================================
